@@ -21,6 +21,8 @@ thread_local! { static CALLER: Cell<u64> = const { Cell::new(0) }; }
 #[derive(Default)]
 struct Gate {
     hold: bool,
+    /// the daemon thread is not stepped (flood scenario): its hold points neither stop it nor are they logged
+    free_d: bool,
     held_d: Option<String>,
     release_d: u64,
     arrivals_d: u64,
@@ -55,6 +57,12 @@ impl Ctl {
         if !D_HOLDS.contains(&point) {
             return;
         }
+        let mut g = self.g.lock().unwrap();
+        if g.free_d {
+            g.arrivals_d += 1;
+            return;
+        }
+        drop(g);
         self.log.push(json!({"ev": "hook", "p": point, "caller": 0, "ok": args.first().copied().unwrap_or(0)}));
         let mut g = self.g.lock().unwrap();
         if !g.hold {
@@ -196,9 +204,11 @@ pub fn run_case(case: &Value, trace: &mut Trace) {
     let tb = Arc::new(TB::<VringRwLock<GM>>::new(cfg, log.clone()));
     let hgate = Arc::new((Mutex::new((false, false)), Condvar::new()));
     *tb.gate.lock().unwrap() = Some(hgate.clone());
+    let flood = peer_sends == "flood";
     let ctl = Arc::new(Ctl {
         g: Mutex::new(Gate {
             hold: true,
+            free_d: flood,
             ..Default::default()
         }),
         cv: Condvar::new(),
@@ -224,6 +234,12 @@ pub fn run_case(case: &Value, trace: &mut Trace) {
         msg.extend_from_slice(&1u32.to_le_bytes());
         msg.extend_from_slice(&0u32.to_le_bytes());
     }
+    if flood {
+        // the handler gate stays open: requests are served until the daemon blocks
+        let (m, cv) = &*hgate;
+        m.lock().unwrap().1 = true;
+        cv.notify_all();
+    }
     let n = match peer_sends {
         "part_hdr" => 5,
         "hdr_only" => 12,
@@ -235,6 +251,47 @@ pub fn run_case(case: &Value, trace: &mut Trace) {
     trace.emit(json!({"ev": "reset", "id": case["id"], "callers": ncallers, "peer": peer_sends, "peer_closes": peer_closes, "serve": use_serve}));
     daemon.start(&mut listener).unwrap();
     let handle = daemon.shutdown_handle();
+    let mut flooded = 0u64;
+    if flood {
+        // GET_FEATURES requests without end, no answer is ever read: the daemon ends up blocked writing a reply, stops
+        // reading, and then the peer cannot send either.  "Blocked" = the peer could not send and the daemon thread passed
+        // none of its hold points for 300 ms.
+        msg.clear();
+        msg.extend_from_slice(&1u32.to_le_bytes());
+        msg.extend_from_slice(&1u32.to_le_bytes());
+        msg.extend_from_slice(&0u32.to_le_bytes());
+        peer.set_nonblocking(true).unwrap();
+        let mut last_progress = Instant::now();
+        let mut last_arr = ctl.g.lock().unwrap().arrivals_d;
+        let t0 = Instant::now();
+        loop {
+            match raw_send(&peer, &msg, &[]) {
+                Ok(n) if n == msg.len() => {
+                    flooded += 1;
+                    last_progress = Instant::now();
+                }
+                Ok(n) if n > 0 => {
+                    // a partial request: complete it (blocking) so that the stream stays well-formed
+                    peer.set_nonblocking(false).unwrap();
+                    let _ = raw_send_all(&peer, &msg[n..], &[]);
+                    peer.set_nonblocking(true).unwrap();
+                    flooded += 1;
+                    last_progress = Instant::now();
+                }
+                _ => std::thread::sleep(Duration::from_millis(2)),
+            }
+            let arr = ctl.g.lock().unwrap().arrivals_d;
+            if arr != last_arr {
+                last_arr = arr;
+                last_progress = Instant::now();
+            }
+            if last_progress.elapsed() > Duration::from_millis(300) || t0.elapsed() > Duration::from_secs(60) {
+                break;
+            }
+        }
+        peer.set_nonblocking(false).unwrap();
+        log.push(json!({"ev": "hook", "p": "flooded", "caller": 0, "ok": flooded}));
+    }
     let mut caller_threads: Vec<std::thread::JoinHandle<()>> = Vec::new();
     let mut peer_opt = Some(peer);
     let quiet = Duration::from_millis(2);
@@ -244,6 +301,7 @@ pub fn run_case(case: &Value, trace: &mut Trace) {
         let a = cmd[1].as_u64().unwrap_or(0);
         let mut done = true;
         match c {
+            "t" | "handler_return" if flood => {}
             "t" => done = ctl.step_daemon(Duration::from_millis(20)),
             "handler_return" => {
                 // wait until the handler has really been entered, then let it return
@@ -325,8 +383,9 @@ pub fn run_case(case: &Value, trace: &mut Trace) {
     let mut peer_eof = "closed_by_peer".to_string();
     if let Some(p) = peer_opt.as_ref() {
         p.set_read_timeout(Some(Duration::from_secs(5))).unwrap();
-        let mut buf = [0u8; 256];
+        let mut buf = [0u8; 4096];
         let mut got = 0usize;
+        let cap = if flood { 256usize << 20 } else { 4096 };
         peer_eof = loop {
             match raw_recv(p, &mut buf, 0) {
                 Ok((0, _)) => break "eof".to_string(),
@@ -334,7 +393,7 @@ pub fn run_case(case: &Value, trace: &mut Trace) {
                 Err(e) if e.kind() == std::io::ErrorKind::WouldBlock || e.kind() == std::io::ErrorKind::TimedOut => break "no_eof".to_string(),
                 Err(_) => break "eof".to_string(),
             }
-            if got > 4096 {
+            if got > cap {
                 break "no_eof".to_string();
             }
         };
